@@ -768,6 +768,32 @@ def copy_of(d):
     return copy.deepcopy(d)
 
 
+def with_sat_api(case):
+    """the SAT operations of a history also call the public methods of SATManager that post nothing (the deprecated
+    prioritize with negated literals, setflipped, isflipped, newaux, printclauses, tocnf, solve, value, evalexpr,
+    newvar with another prefix) on their variables - whose names the probed manager registers as well.  Derived
+    from the content of the operation (equal histories stay equal; the objects are not modified: a near-duplicate
+    in a history may be the very object that is probed)"""
+    if case.get("threshold") or case.get("tail"):
+        return case
+    import random
+    import zlib
+    hs = []
+    for h in case["history"]:
+        op = h["op"]
+        if op.get("k") == "sat" and not any(q["k"] == "api" for q in op["posts"]):
+            r = random.Random(zlib.crc32(json.dumps(fr.tojson(op["posts"]), sort_keys=True).encode()))
+            names = [q["v"] for q in op["posts"] if q["k"] == "newvar"]
+            if names and r.random() < 0.7:
+                posts = list(op["posts"])
+                first = max(i for i, q in enumerate(posts) if q["k"] == "newvar") + 1
+                for _ in range(r.choice([1, 1, 2, 3])):
+                    posts.insert(r.randint(first, len(posts)), c07.gen_api_call(r, names))
+                h = dict(h, op=dict(op, posts=posts))
+        hs.append(h)
+    return dict(case, history=hs)
+
+
 # --------------------------------------------------------------------------
 # the SIZE of the process-wide diagram store: a history that leaves 10^4 .. 2^21 nodes behind
 # --------------------------------------------------------------------------
@@ -1478,6 +1504,7 @@ def run(ctx, out, replay=None):
         g = gen_related_group(ctx.rng, k)
         nrel += len(g)
         cases += g
+    cases = cases[:ncorpus] + [with_sat_api(c) for c in cases[ncorpus:]]
     # JSON round trip so that replayed and generated cases have the same representation
     cases = [fr.unjson(json.loads(json.dumps(fr.tojson(c)))) for c in cases]
     _t("generation")
